@@ -3,6 +3,7 @@ package main
 import (
 	"fmt"
 	"go/token"
+	"go/types"
 	"strings"
 
 	"golang.org/x/tools/go/ssa"
@@ -29,6 +30,9 @@ func checkJ1(c *Ctx, jr *joinRoles) {
 					return true, v
 				}
 				el, okv := varargsElem(v)
+				if _, isSlice := v.Type().Underlying().(*types.Slice); !okv && !isSlice {
+					el, okv = v, true // the element itself, handed to an append helper (ingestOfFr)
+				}
 				if !okv {
 					whole = append(whole, fmt.Sprintf("ingest at %s appends %s, not exactly the received element", p.InstrPos(in), p.SymFrame(fr, v)))
 					return true, v
